@@ -402,7 +402,13 @@ def run_check(P, tier, seed, replay=None, report_as=None):
     known = [k for k in load_known() if k['property'] == pid and k['status'] == 'known']
     violations, known_hits = [], {}
     for i in specfail:
-        cls = P.known_class(cases[i], outs[i]) if hasattr(P, 'known_class') else None
+        cls = None
+        if hasattr(P, 'known_class'):
+            import inspect
+            if len(inspect.signature(P.known_class).parameters) >= 3:     # (case, output, does the tie hold for this case)
+                cls = P.known_class(cases[i], outs[i], i not in disagree)
+            else:
+                cls = P.known_class(cases[i], outs[i])
         hit = next((k for k in known if cls is not None and k.get('covers') == cls), None)
         if hit:
             known_hits.setdefault(hit['id'], []).append(i)
